@@ -102,6 +102,12 @@ def main():
     rec("regex::split('\\s#', s, 2)[0] == text before the first (WS,'#') pair (shape pair)", not bad, len(S), bad[:3])
     bad = [s for s in S if (re.search(r"[^\S+]", s) is not None) != any(is_ws(c) for c in s)]
     rec("regex::search('[^\\S+]') is not None == contains a WS character (shape has)", not bad, len(S), bad[:3])
+    bad = []
+    for s in S + [w * k + t for w in (" ", "\t", "\u00a0") for k in range(0, 9) for t in ("|", "|x", "x|", "")]:
+        L = lead(s, is_ws)
+        if bool(re.match("^\\s\\s\\s?\\s?\\s?\\|", s.replace("#", "|"))) != (2 <= L <= 5 and L < len(s) and s.replace("#", "|")[L] == "|"):
+            bad.append(s)
+    rec("regex::match('^\\s\\s\\s?\\s?\\s?\\|') == 2..5 leading WS characters then '|' (shape lead_range)", not bad, len(S), bad[:3])
     # the literals themselves must still be the ones validated here
     src = open(os.path.join(REPO, "python", "gherkin", "gherkin_line.py"), encoding="utf8").read()
     lits = sorted({n.value for n in ast.walk(ast.parse(src)) if isinstance(n, ast.Constant) and isinstance(n.value, str)
